@@ -49,6 +49,7 @@ pub enum Class {
     Misaligned, // an aligned load at an unaligned address
     Panic,      // panic inside the documented domain / missing documented panic
     Alloc,      // heap allocation in a non-owning call
+    Pair,       // a finder reports a different pair / minimum length than it was built with
     Drift,      // conformance only: load sequence / route / steps differ from L-model
 }
 impl Class {
@@ -60,6 +61,7 @@ impl Class {
             Class::Misaligned => "misaligned",
             Class::Panic => "panic",
             Class::Alloc => "alloc",
+            Class::Pair => "pair",
             Class::Drift => "drift",
         }
     }
@@ -350,7 +352,7 @@ impl Report {
 }
 
 fn class_key(k: &str) -> &'static str {
-    for c in [Class::Result, Class::Count, Class::Oob, Class::Misaligned, Class::Panic, Class::Alloc, Class::Drift] {
+    for c in [Class::Result, Class::Count, Class::Oob, Class::Misaligned, Class::Panic, Class::Alloc, Class::Pair, Class::Drift] {
         if c.name() == k {
             return c.name();
         }
@@ -430,6 +432,9 @@ pub fn run_isolated(
                 }
             }
         } else if r.len() <= 1 {
+            crashes.push((r.start, status));
+        } else if crashes.len() >= 8 {
+            // enough distinct crashing inputs isolated: do not bisect the rest, attribute the chunk
             crashes.push((r.start, status));
         } else {
             let mid = r.start + r.len() / 2;
